@@ -7,6 +7,7 @@ package main
 import (
 	"fmt"
 	"sync"
+	"sync/atomic"
 	"time"
 
 	"github.com/fatedier/frp/pkg/util/verifhook"
@@ -23,7 +24,39 @@ type gateCtl struct {
 	hold    map[string]bool
 	waiting []*arrival
 	sig     chan struct{}
+
+	// spin barrier: goroutines reaching spinPoint busy-wait on spinGo, so that several can be let
+	// go within a few nanoseconds of each other (a channel wake-up has microseconds of jitter)
+	spinPoint   atomic.Value // string
+	spinGo      atomic.Bool
+	spinArrived atomic.Int32
 }
+
+// passThrough stops holding every point (parked goroutines stay parked until released).
+func (g *gateCtl) passThrough() {
+	g.mu.Lock()
+	g.hold = map[string]bool{}
+	g.mu.Unlock()
+}
+
+func (g *gateCtl) armSpin(point string) {
+	g.spinGo.Store(false)
+	g.spinArrived.Store(0)
+	g.spinPoint.Store(point)
+}
+
+func (g *gateCtl) waitSpinArrived(n int32, d time.Duration) bool {
+	deadline := time.Now().Add(d)
+	for g.spinArrived.Load() < n {
+		if time.Now().After(deadline) {
+			return false
+		}
+		time.Sleep(50 * time.Microsecond)
+	}
+	return true
+}
+
+func (g *gateCtl) fireSpin() { g.spinGo.Store(true) }
 
 // the points this property owns; every other point passes through
 var c12Points = []string{
@@ -44,6 +77,7 @@ func installGates() *gateCtl {
 // uninstall releases everything still parked and removes the controller.
 func (g *gateCtl) uninstall() {
 	verifhook.Install(nil)
+	g.spinGo.Store(true)
 	g.mu.Lock()
 	g.hold = map[string]bool{}
 	for _, a := range g.waiting {
@@ -61,6 +95,12 @@ func (g *gateCtl) uninstall() {
 }
 
 func (g *gateCtl) at(point, key string) {
+	if sp, _ := g.spinPoint.Load().(string); sp != "" && sp == point {
+		g.spinArrived.Add(1)
+		for !g.spinGo.Load() {
+		}
+		return
+	}
 	g.mu.Lock()
 	if !g.hold[point] {
 		g.mu.Unlock()
